@@ -27,11 +27,34 @@ def Cell.isMissing : Cell → Bool
   | .missing => true
   | _ => false
 
-/-- the string of a join-attribute cell (join columns hold only strings or missing values;
-    anything else makes the real tokenizer raise TypeError and is outside the model) -/
+/-- the string of a join-attribute cell.  Only ever consulted for cells that are strings: every
+    entry point raises `TypeError` (as the real tokenizer does, "Input is expected to be a string")
+    before a present non-string value would be tokenized — see `Cell.isStr` and its users
+    (`runTables`, `filterPairPy`, `filterCandset`, `applyMatcher`). -/
 def Cell.strVal : Cell → String
   | .str s => s
   | _ => ""
+
+/-- the cell holds a Python `str` — the only values `tokenizer.tokenize` accepts -/
+def Cell.isStr : Cell → Bool
+  | .str _ => true
+  | _ => false
+
+/-- the cell is harmless for the tokenizer: missing (never tokenized) or a `str` -/
+def Cell.strOrMissing : Cell → Bool
+  | .missing => true
+  | .str _ => true
+  | _ => false
+
+/-- Python truthiness `not v` of a (non-missing) cell, as far as the value classes determine it:
+    `''`, `0`, `0.0`, `False` (and the empty tuple / bytes of the harness's canonical tags) are falsy;
+    every other opaque object is taken to be truthy.  Used by `OverlapFilter.filter_pair` only. -/
+def Cell.falsy : Cell → Bool
+  | .missing => false
+  | .str s => s == ""
+  | .int i => i == 0
+  | .flt q => q == 0
+  | .other tag => tag == "bool:False" || tag == "tuple:()" || tag == "bytes:b''"
 
 /-! ### Python `dict` as an insertion-ordered association list -/
 namespace Dict
